@@ -59,7 +59,6 @@ def run(chk, G):
         return 'exc:' + type(e).__name__
 
     # ------------------------------------------------------------------ part 5: CPython set order
-    if os.environ.get('VERIF_C17_TIMES'): print('T', 'part 5: CPyt', round(chk.elapsed(), 1), flush=True)
     rng = chk.rng('pyset')
     cases = [[6, 7, 8, 9], [8, 16, 24, 32, 40], [-1, -2], list(range(100, 140)), [2 ** 61 - 1, 2 ** 61, 0], []]
     for _ in range(N(1200, 12000)):
@@ -94,7 +93,6 @@ def run(chk, G):
         chk.case('pyset-%d' % i, ln, enc(real) + ' exact 1', mo, errs, disordered)
 
     # ------------------------------------------------------------------ part 6: molecules, non-uniform
-    if os.environ.get('VERIF_C17_TIMES'): print('T', 'part 6: mole', round(chk.elapsed(), 1), flush=True)
     def gen_atoms_nu(rng):
         """atoms [key, chain, resid, resname, icode, value]: as gen_atoms, with bigger residues, keys whose
         set order differs from their numeric order, and per-ATOM values (non-uniform, partly absent)"""
@@ -239,6 +237,9 @@ def run(chk, G):
                     errs.append('element %d (%r) is carried by no atom of residue %d' % (k, c, k))
                 if uniform and c != by_key[min(g)]:
                     errs.append('uniform residue %d: element %r, value %r' % (k, c, by_key[min(g)]))
+                if k < len(tuples) and tuples[k] and (by_key.get(tuples[k][0]) != c or type(by_key.get(tuples[k][0])) is not type(c)):
+                    errs.append('element %d is %r; the first node of the residue tuple %r (documented source of the value) carries %r'
+                                % (k, c, tuples[k], by_key.get(tuples[k][0])))
         first_in_node_order = [by_key[next(a[0] for a in atoms if a[0] in g)] for g in groups]
         lowest_key = [by_key[min(g)] for g in groups]
         nt = not uniform
@@ -307,7 +308,6 @@ def run(chk, G):
         chk.case('mol2-%d' % i, ln, impl, mo, errs, nt)
 
     # ------------------------------------------------------------------ part 7: annotate_dssp / AnnotateDSSP
-    if os.environ.get('VERIF_C17_TIMES'): print('T', 'part 7: anno', round(chk.elapsed(), 1), flush=True)
     PROT = ('ALA', 'GLY')
 
     def gen_protein_atoms(rng, protein=True, nres=None):
@@ -440,7 +440,6 @@ def run(chk, G):
         chk.case('dssp-%d' % i, ln, impl, mo, errs, nt)
 
     # ------------------------------------------------------------------ part 8: systems, the martinize2 statement
-    if os.environ.get('VERIF_C17_TIMES'): print('T', 'part 8: syst', round(chk.elapsed(), 1), flush=True)
     def extract_cli():
         """the `if args.dssp: ... elif args.ss is not None: ... elif args.collagen: ...` statement of
         bin/martinize2 as a function of (args, system, target_ff), and the `type=` of the -ss option"""
@@ -690,6 +689,9 @@ def run(chk, G):
                             errs.append('molecule %d (no protein / no positions) changed' % j)
                         continue
                     want = ans * len(groups) if (len(ans) == 1 and len(groups) != 1) else ans
+                    if len(want) != len(groups):
+                        errs.append('molecule %d: %d classes from DSSP for %d residues, and no error' % (j, len(ans), len(groups)))
+                        continue
                     got = []
                     for kk, g in enumerate(groups):
                         for key in g:
@@ -754,9 +756,52 @@ def run(chk, G):
     for i, (ln, (kind, impl, errs, nt), mo) in enumerate(zip(L, meta, models)):
         chk.count('sys2_' + kind)
         chk.case('sys2-%d' % i, ln, impl, mo, errs, nt)
+    # gmx_system_header (oracle only; it is what AnnotateMartiniSecondaryStructures.run_system calls first): the
+    # sequence of the residue-uniform attribute 'secstruct' of the protein molecules goes to the header when it is
+    # complete; a molecule flagged modified_cgsecstruct adds the SS_CG image of the cgsecstruct sequence
+    rng = chk.rng('gmx-header')
+    for i in range(N(60, 600)):
+        mols = gen_sys2(rng)
+        system = build_system(mols)
+        prots = [all(a[3] in PROT for a in atoms) for atoms in mols]
+        complete = rng.random() < 0.7
+        want_ss, want_cg = [], []
+        for m, atoms, p in zip(system.molecules, mols, prots):
+            for g in oracle_residues(atoms):
+                v = rng.choice('HECTS') if (complete or rng.random() < 0.6) else None
+                c = rng.choice('123HGIBETSC')
+                for key in g:
+                    if v is not None:
+                        m.nodes[key]['secstruct'] = v
+                    m.nodes[key]['cgsecstruct'] = c
+                if p:
+                    want_ss.append(v)
+                    want_cg.append(DOC_TABLE[c])
+        flagged = rng.random() < 0.4
+        if flagged and system.molecules:
+            rng.choice(system.molecules).meta['modified_cgsecstruct'] = True
+        try:
+            D.gmx_system_header(system)
+            outcome = 'ok'
+        except Exception as e:
+            outcome = exc2(e)
+        header = list(system.meta.get('header', []))
+        errs = []
+        if outcome != 'ok':
+            errs.append('gmx_system_header raised ' + outcome)
+        else:
+            has_ss = bool(want_ss) and None not in want_ss
+            joined = ''.join(want_ss) if has_ss else None
+            if has_ss != (joined in header):
+                errs.append('header %r; complete secstruct sequence of the proteins: %r' % (header, joined))
+            if (flagged and bool(system.molecules)) != (''.join(want_cg) in header[3 if has_ss else 0:] and len(header) > (3 if has_ss else 0)):
+                errs.append('header %r; flagged=%r, Martini classes of the proteins %r' % (header, flagged, ''.join(want_cg)))
+            if not has_ss and not flagged and header:
+                errs.append('header written without a complete sequence: %r' % header)
+        chk.count('gmx_header_%s%s' % ('with_sequence' if (want_ss and None not in want_ss) else 'without_sequence', '_flagged' if flagged else ''))
+        chk.case('gmxheader-%d' % i, 'gmx_system_header stream', outcome, None, errs[:2], flagged)
 
     # ------------------------------------------------------------------ part 9: read_dssp2, run_dssp, _savefile_path
-    if os.environ.get('VERIF_C17_TIMES'): print('T', 'part 9: read', round(chk.elapsed(), 1), flush=True)
     HEADER = '  #  RESIDUE AA STRUCTURE BP1 BP2  ACC     N-H-->O    O-->H-N    N-H-->O    O-->H-N    TCO  KAPPA ALPHA  PHI   PSI    X-CA   Y-CA   Z-CA'
 
     def res_line(rng, num, cls):
@@ -959,6 +1004,9 @@ def run(chk, G):
             if out_cmp is not None:
                 L.append(line('readdssp', text.split('\n')))
                 meta.append(('run_dssp_%s' % ('ok' if isinstance(out, list) else out), out_cmp, errs, isinstance(out, list) and len(out) > 0))
+            else:
+                chk.count('run_dssp_savedir_without_chain')
+                chk.case('run_dssp-nochain-%d' % i, 'savedir without chain', 'valueerror', None, errs, False)
             if isinstance(out, list):
                 # the processor configured with the PATH of an executable: AnnotateDSSP -> run_dssp -> read_dssp2 ->
                 # annotate_residues_from_sequence on a protein with as many residues as DSSP printed (or one more)
@@ -984,9 +1032,6 @@ def run(chk, G):
                              errs2, True))
                 for f in [f for f in os.listdir(tmp) if f.startswith('dssp_in_') or f == 'seen.pdb']:
                     os.remove(os.path.join(tmp, f))
-            else:
-                chk.count('run_dssp_savedir_without_chain')
-                chk.case('run_dssp-nochain-%d' % i, 'savedir without chain', 'valueerror', None, errs, False)
             SAVE.append((use_save, chains))
         # a failing executable and a missing one are DSSPError
         open(os.path.join(tmp, 'fail'), 'w').close()
@@ -1077,7 +1122,6 @@ def run(chk, G):
         chk.case('savefile-%d' % i, ln, impl, mo, errs, nt)
 
     # ------------------------------------------------------------------ part 10: real in-process command-line runs
-    if os.environ.get('VERIF_C17_TIMES'): print('T', 'part 10: rea', round(chk.elapsed(), 1), flush=True)
     def cli_runs():
         import runpy
         import logging
@@ -1157,7 +1201,6 @@ def run(chk, G):
 
     L, meta = [], []
     _cli = cli_runs()
-    if os.environ.get('VERIF_C17_TIMES'): print('T cli runs done', round(chk.elapsed(), 1), flush=True)
     for raw, outcome, cap in _cli:
         if 'mols' not in cap:
             chk.case('cli-%s' % raw, 'martinize2 -ss %s' % raw, outcome, None,
